@@ -456,6 +456,50 @@ func TestC12(t *testing.T) {
 			case "grpcmux":
 				attack(mainSock, func(cr cred) (bool, error) { return intrudeGRPC(mainSock, cr, true, false) })
 			}
+		case "plugin-brokered-session", "host-brokered-session":
+			// brokered listeners that have no socket of their own (multiplexing), or reached the broker's own
+			// way: the dial goes through the broker's DialWithOptions (the session, the knock) with only the
+			// transport credentials replaced by those of an intruder class
+			g := cli.(*vp.GRPCCli)
+			if p.Path == "plugin-brokered-session" {
+				if _, err := cli.Do("grpc-accept", "id", 501, "nonce", "legit"); err != nil {
+					o.SetupErr = "plugin accept: " + err.Error()
+					break
+				}
+				r := vp.GRPCDialPing(g.Broker, 501, 20*time.Second, true)
+				if r.DialErr == "" && r.PingErr == "" && r.Msg == "501/legit" {
+					o.PositiveOK, o.Positive = true, "host dialled the brokered listener and was answered "+r.Msg
+				} else {
+					o.Positive = r.DialErr + r.PingErr
+				}
+				o.Target = "plugin-side brokered listener 501 through the host's broker"
+				for _, cn := range vp.IntruderCredNames {
+					t0 := time.Now()
+					ans, es := vp.GRPCDialAs(g.Broker, 501, cn, intrudeTimeout)
+					o.Attempts = append(o.Attempts, spec.C12Attempt{Cred: cn, Answered: ans, Err: trunc(es, 160), Ms: time.Since(t0).Milliseconds()})
+				}
+			} else {
+				h := vp.GRPCAcceptServe(g.Broker, 601, "hostlegit")
+				defer h.Stop()
+				m, err := cli.Do("grpc-dial", "id", 601, "timeoutMs", 20000)
+				if err == nil && vp.Str(m, "msg") == "601/hostlegit" {
+					o.PositiveOK, o.Positive = true, "the plugin dialled the host-side brokered listener and was answered"
+				} else {
+					o.Positive = fmt.Sprint(m, err)
+				}
+				o.Target = "host-side brokered listener 601 through the plugin's broker"
+				for _, cn := range vp.IntruderCredNames {
+					t0 := time.Now()
+					m, err := cli.Do("grpc-dial-as", "id", 601, "cred", cn, "timeoutMs", int(intrudeTimeout/time.Millisecond))
+					a := spec.C12Attempt{Cred: cn, Ms: time.Since(t0).Milliseconds()}
+					if err != nil {
+						o.SetupErr = "grpc-dial-as: " + err.Error()
+						break
+					}
+					a.Answered, a.Err = vp.Bool(m, "answered"), trunc(vp.Str(m, "err"), 160)
+					o.Attempts = append(o.Attempts, a)
+				}
+			}
 		case "plugin-brokered":
 			g := cli.(*vp.GRPCCli)
 			dirs := []string{l.Dir, l.HostDir}
